@@ -100,8 +100,63 @@ def cut_off(origins):
     return sorted(set((o[1] or '').split('::')[-1] for o in origins if o[0] == 'call') & set(CUT_OFF))
 
 
+def owned_borrowed(ctx, fb, R):
+    """'... and whether inputs were passed as owned values or borrowed views': borrowed inputs are looked up before
+    temporaries and never for constant ids, so owned inputs must behave the same: (value-nodes-only) an owned input is moved
+    into the temporaries map only under a test that its node is Node::Value (a value supplied for a constant id is ignored,
+    as a view would be - otherwise it becomes an in-place candidate); (caller-value-wins) operator outputs are saved to
+    the temporaries through a filter that consults the ids recorded in that same extraction loop, so an output never
+    replaces a value the caller supplied (a view would shadow it)."""
+    f = fb.fn(RP)
+    if not ctx.anchor(R, 'Graph::run_plan', f is not None and f.has_mir()):
+        return
+    ins = [c for c in f.calls() if (c.callee or '').endswith('value_map::ValueMap::insert')]
+    # the extraction insert: its key comes from the `inputs` parameter
+    ext = [c for c in ins if any(o[0] == 'param' and o[1] == 1 for o in f.origins(c.args[1])) or any(o[0] == 'call' and re.search(r'Vec::<T(, A)?>::remove$', o[1] or '') for o in f.origins(c.args[1]))]
+    if not ctx.anchor(R, 'owned-input extraction insert', len(ext) == 1):
+        return
+    c = ext[0]
+    kinds = None
+    for g in f.guards(c.bb):
+        gv = guard_variants(g, fb)
+        if gv and gv[1] is not None and str(gv[0]).endswith('node::Node'):
+            kinds = set(gv[1]) if kinds is None else (kinds & set(gv[1]))
+    kinds = kinds or set()
+    okv = kinds == {'Value'}
+    ctx.inst(R, 'value-nodes-only', okv, 'owned inputs are moved into the temporaries only when their node is Node::Value (guards: %s)' % sorted(kinds) if okv else
+             'an owned input is moved into the temporaries map without testing that its node is a value node (guards seen: %s): a value supplied for a constant id becomes an in-place candidate and the run differs from passing the same value as a view' % sorted(kinds), c.loc())
+    # ids recorded in the same region
+    recs = [k for k in f.calls() if re.search(r'Vec::<T(, A)?>::push$', k.callee or '') and 'NodeId' in f.local_ty(op_local(k.args[1]) or 0) and f.dominates(c.bb, k.bb) or
+            (re.search(r'Vec::<T(, A)?>::push$', k.callee or '') and 'NodeId' in f.local_ty(op_local(k.args[1]) or 0) and set(g.bb for g in f.guards(k.bb)) == set(g.bb for g in f.guards(c.bb)))]
+    exts = [k for k in f.calls() if (k.callee or '').endswith('value_map::ValueMap::extend')]
+    okw = False
+    where = exts[0].loc() if exts else f.loc()
+    for k in exts:
+        cur = k.args[1]
+        for _ in range(6):
+            r = f.resolve_copy(cur)
+            if r[0] != 'call':
+                break
+            if re.search(r'Iterator::filter$', r[1].callee or ''):
+                # the predicate closure reads a Vec<NodeId> with contains(); that Vec is the one pushed to during extraction
+                cty = f.local_ty(op_local(r[1].args[1]) or 0)
+                for q in fb.closures_of(f.path):
+                    cf = fb.fn(q)
+                    if cf is None or not cf.has_mir():
+                        continue
+                    if (':%d:' % cf.line) in cty:     # the closure type names its source position
+                        if any(re.search(r'::contains$', x.callee or '') for x in cf.calls()) and recs:
+                            okw = True
+            if not r[1].args:
+                break
+            cur = r[1].args[0]
+    ctx.inst(R, 'caller-value-wins', okw, 'operator outputs are saved through a filter on the ids of the caller\'s owned inputs (recorded during extraction)' if okw else
+             'operator outputs are written to the temporaries without excluding ids the caller supplied: the output of a multi-output operator that still runs replaces an owned input value, while a borrowed view of the same value would shadow it', where)
+
+
 def run(ctx):
     fb = ctx.fb()
+    owned_borrowed(ctx, fb, 'C02.owned-borrowed')
     inplace_gate(ctx, fb, 'C02.inplace-gate')
     refcount_pairing(ctx, fb, 'C02.refcount-pairing')
     views_only(ctx, fb, 'C02.views-only')
